@@ -159,7 +159,7 @@ PLAN["C09"] = {
     "assumptions": STACK_ASSUME + ["SignalToAdd / VerifyReplicaAlive are answered from the script (recorded) in the scripted tier; Create/Start use the real remote factory and replicas"],
     "technique": "model-based property testing (rapid) of the registration/start protocol with a scripted backend factory; end-to-end restart check against the data model",
     "quick": {"wall": 150, "tests": [
-        {"run": "TestC09", "shards": 12, "checks": 120, "timeout": 130},
+        {"run": "TestC09", "shards": 12, "checks": 80, "timeout": 130},
         {"run": "TestC09EndToEnd", "shards": 4, "checks": 25, "timeout": 120},
     ]},
     "thorough": {"wall": 900, "tests": [
@@ -329,3 +329,9 @@ PLAN["C13"]["thorough"]["tests"][0]["shards"] = 12
 PLAN["C13"]["thorough"]["tests"].append({"run": "TestC13Revert", "shards": 4, "checks": 1500, "timeout": 840})
 PLAN["C13"]["rule"] += ("; 'snaprace' steps: a snapshot request issued while a write stalled by one replica holds the controller lock and ends with that replica detached - accepted => the snapshot exists on all RF "
                         "replicas, refused => on none; TestC13Revert: programs without racing writers but with Controller.Revert, rebuilds and departures - the checkpoint clauses hold across volume reverts")
+
+PLAN["C06"]["quick"]["tests"][0]["shards"] = 8
+PLAN["C06"]["quick"]["tests"].append({"run": "TestC06Deletion", "shards": 3, "checks": 100, "timeout": 100})
+PLAN["C06"]["thorough"]["tests"][0]["shards"] = 8
+PLAN["C06"]["thorough"]["tests"].append({"run": "TestC06Deletion", "shards": 3, "checks": 2500, "timeout": 840})
+PLAN["C06"]["rule"] += "; TestC06Deletion: the engine oracle over deletion-heavy programs (delete requests for user snapshots, checkpoints, cleaner-style removal of any candidate the product offers)"
